@@ -209,7 +209,9 @@ void harness(void)
     ok = ok && r[n1 + n2] == NULL;
     VP_ASSERT(C03, ok, "result is not a deep copy of the first vector's entries followed by the second's, NULL-terminated");
     VP_ASSERT(C05, vp_live_allocs == 1 + n1 + n2, "unexpected number of live allocations");
-    VP_ASSERT(C05, strv_free(r) == NULL && vp_live_allocs == 0, "strv_free does not release everything exactly once");
+    char **sf = strv_free(r);
+    VP_ASSERT(C05, sf == NULL && vp_live_allocs == 0, "strv_free does not release everything exactly once");
+    VP_ASSERT(C03, sf == NULL, "strv_free does not return null");
   }
   VP_COVER(r != NULL && n1 == 2 && n2 == 2, "two plus two entries");
   VP_COVER(r == NULL, "allocation failure");
@@ -274,7 +276,8 @@ void harness(void)
     ok = ok && out[ol + n] == '\0';
     VP_ASSERT(C16, ok, "string sink result is not previous content + chunk, NUL-terminated");
   }
-  VP_ASSERT(C16, reproc_free(out) == NULL, "reproc_free does not return null");
+  void *fr = reproc_free(out);
+  VP_ASSERT(C16, fr == NULL, "reproc_free does not return null");
   VP_ASSERT(C16, vp_live_allocs == 0, "string sink leaks or double frees");
   VP_COVER(r == REPROC_ENOMEM && oldlen > 0, "allocation failure with previous content");
   VP_COVER(r == 0 && oldlen == VP_L && n == VP_L, "full previous content plus full chunk");
